@@ -42,7 +42,7 @@ def floors(tier):
     return {"distinct_nontrivial": 300, "variants_compared": 5000, "cls:variant_syntactically_different": 3000,
             "cls:decl_order_permuted": 1000, "cls:sel_order_permuted": 500, "cls:split_top_and": 100,
             "cls:nvars=3": 300, "cls:nvars=4": 100, "cls:for_all_query": 200, "cls:flatten_query": 100, "cls:flatten_of_plain_numbers": 60, "cls:concatenate_query": 100, "cls:feature_interaction_query": 150,
-            "cls:subquery_operand_before_its_parent_is_bound": 100, "re:cls:scale:.*": 100, "cls:selected_attribute_expression_under_a_disjunction_with_ties": 200}
+            "cls:subquery_operand_before_its_parent_is_bound": 100, "re:cls:scale:.*": 100, "cls:selected_attribute_expression_under_a_disjunction_with_ties": 120}
 
 
 def cases(spec, ctx):
